@@ -3,18 +3,15 @@ package main
 import (
 	"fmt"
 	"os"
-	"strings"
 
 	"verif/eng"
 )
 
 func main() {
-	e, _ := eng.Get("oracle")
-	os.Setenv("VERIF_DEBUG_PANIC", "1")
-	res := e(eng.Job{Prop: "C13", Engine: "oracle", Tier: "quick", Seed: 1, From: 27, To: 28, Verbose: true})
-	for _, v := range res.Stats["C13"].Viol {
-		if strings.Contains(v.Detail, "nil pointer") {
-			fmt.Println(v.Sig, v.Step)
-		}
+	os.Setenv("VERIF_C14_DEBUG", "1")
+	e, _ := eng.Get("oracle14")
+	res := e(eng.Job{Prop: "C14", Engine: "oracle14", Tier: "quick", Seed: 1, From: 3, To: 4})
+	for _, v := range res.Stats["C14"].Viol[:3] {
+		fmt.Println(v.Sig, v.Step, v.Detail)
 	}
 }
